@@ -51,3 +51,56 @@ Example C19_bufio_ex :
   [ResBytes [1; 2; 3]%N None; ResByte (RB 1%N); ResCount 2 None; ResBytes [4; 5; 6; 7]%N None;
    ResBytes [8; 9; 10]%N (Some EFail); ResBytes [8; 9; 10]%N (Some EFail); ResByte (RBErr EFail)].
 Proof. vm_compute. split; reflexivity. Qed.
+
+(* ---- the binary reader model as a client of the buffered reader -------------------------------------------------- *)
+(* Bin/BitStream.v reaches its input only through b_read, b_readN, b_skip and b_peek.  For a concrete bufio.Reader
+   model [br] over ANY chunk schedule that is in step with the reader model's remaining input, each primitive's
+   result is determined by what [br] answers, and the two stay in step: the binary reader model is a deterministic
+   client of the bufio layer, so C19_bufio_chunk_independent applies to everything it does, and its failing-source
+   flag is the abstraction of an io.Reader that fails after the bytes. *)
+From IonV Require Import Base.Wire Bin.Bits Bin.BitStream Bin.BitStreamP Bin.BitStreamIO.
+
+Theorem C19_binreader_input_init : forall (bsz : nat) s inp (ioerr : bool),
+  s_rest s = inp -> s_fin s = (if ioerr then FFail else FEof) -> in_step bsz (new_breader s) (b_init inp ioerr).
+Proof. exact in_step_init. Qed.
+Print Assumptions C19_binreader_input_init.
+
+Theorem C19_binreader_read_byte : forall bsz : nat, (1 <= bsz)%nat -> forall br b, in_step bsz br b ->
+  let '(r, br') := do_op bsz OReadByte br in
+  snd (b_read b) = (match r with ResByte (RB c) => Ok (Some c) | ResByte (RBErr EEof) => Ok None | _ => Err end) /\
+  in_step bsz br' (fst (b_read b)).
+Proof. exact sim_read. Qed.
+Print Assumptions C19_binreader_read_byte.
+
+Theorem C19_binreader_read_full : forall bsz : nat, (1 <= bsz)%nat -> forall br b n, in_step bsz br b -> avail_ok b ->
+  let '(r, br') := do_op bsz (OReadFull (N.to_nat n)) br in
+  snd (b_readN b n) = (match r with ResBytes d None => Ok d | _ => Err end) /\
+  in_step bsz br' (fst (b_readN b n)).
+Proof. exact sim_readN. Qed.
+Print Assumptions C19_binreader_read_full.
+
+Theorem C19_binreader_discard : forall bsz : nat, (1 <= bsz)%nat -> forall br b n, in_step bsz br b -> avail_ok b -> (n < two63)%N ->
+  let '(r, br') := do_op bsz (ODiscard (N.to_nat n)) br in
+  snd (b_skip b n) = (match r with ResCount _ None => Ok tt | _ => Err end) /\
+  in_step bsz br' (fst (b_skip b n)).
+Proof. exact sim_skip. Qed.
+Print Assumptions C19_binreader_discard.
+
+Theorem C19_binreader_peek : forall bsz : nat, (1 <= bsz)%nat -> forall br b k, in_step bsz br b -> (S (N.to_nat k) <= bsz)%nat ->
+  let '(r, br') := do_op bsz (OPeek (S (N.to_nat k))) br in
+  b_peek b k = (match r with
+                | ResBytes d None => match nth_error d (N.to_nat k) with Some c => Ok c | None => Err end
+                | _ => Err end) /\
+  in_step bsz br' b.
+Proof. exact sim_peek. Qed.
+Print Assumptions C19_binreader_peek.
+
+(* non-vacuity: a reader model over eleven bytes and a buffered reader over the same bytes cut 1+2+3+… are in step,
+   and stay so after ReadByte *)
+Example C19_binreader_ex :
+  let s := mkSource [224; 1; 0; 234; 33; 5; 33; 6; 33; 7; 15]%N [0; 1; 2]%nat FEof true in
+  let b := b_init [224; 1; 0; 234; 33; 5; 33; 6; 33; 7; 15]%N false in
+  abs (new_breader s) = flat_of b /\
+  fst (do_op 4%nat OReadByte (new_breader s)) = ResByte (RB 224%N) /\ snd (b_read b) = Ok (Some 224%N) /\
+  abs (snd (do_op 4%nat OReadByte (new_breader s))) = flat_of (fst (b_read b)).
+Proof. vm_compute. repeat split; reflexivity. Qed.
